@@ -29,8 +29,21 @@ var _ = verifParam("C05", "mac_size", func() int64 { return crypto.VerifMACSize 
 var _ = verifParam("C05", "extension", func() int64 { return crypto.Extension })
 var _ = verifParam("C05", "salt_length", func() int64 { return crypto.VerifSaltLength })
 
+// c05Hex splits long byte strings into several literals (a single very long Coq string literal
+// overflows coqc's stack).
+func c05Hex(b []byte) string {
+	if len(b) <= 2048 {
+		return coqHex(b)
+	}
+	var parts []string
+	for i := 0; i < len(b); i += 2048 {
+		parts = append(parts, coqHex(b[i:min(i+2048, len(b))]))
+	}
+	return "(" + strings.Join(parts, " ++ ") + ")%list"
+}
+
 func c05Key(k *crypto.Key) string {
-	return fmt.Sprintf("(mkkey %s %s %s)", coqHex(k.EncryptionKey[:]), coqHex(k.MACKey.K[:]), coqHex(k.MACKey.R[:]))
+	return fmt.Sprintf("(mkkey %s %s %s)", c05Hex(k.EncryptionKey[:]), c05Hex(k.MACKey.K[:]), c05Hex(k.MACKey.R[:]))
 }
 
 func c05Seal(k *crypto.Key, nonce, dst, pt, ad []byte) (out []byte, panicked bool) {
@@ -51,7 +64,7 @@ func c05SealTerm(out []byte, panicked bool) string {
 	if panicked {
 		return "SPanic"
 	}
-	return "(SOk " + coqHex(out) + ")"
+	return "(SOk " + c05Hex(out) + ")"
 }
 
 // c05Open returns the Coq term of the observation and whether it was accepted.
@@ -75,7 +88,7 @@ func c05Open(k *crypto.Key, nonce, dst, ct []byte) (term string, ok bool) {
 	case panicked:
 		return "OPanic", false
 	case err == nil:
-		return "(OOk " + coqHex(out) + ")", true
+		return "(OOk " + c05Hex(out) + ")", true
 	case errors.Is(err, crypto.ErrUnauthenticated):
 		return "OUnauth", false
 	}
@@ -212,7 +225,7 @@ func engineC05(c *vctx) error {
 				}
 			}
 			for _, e := range [][]byte{{0}, make([]byte, 16), rng.bytes(16), rng.bytes(1 + rng.intn(40))} {
-				add(c05Mut{"(MAppend " + coqHex(e) + ")", k, nonce, append(append([]byte(nil), sealed...), e...), "append"})
+				add(c05Mut{"(MAppend " + c05Hex(e) + ")", k, nonce, append(append([]byte(nil), sealed...), e...), "append"})
 			}
 			for _, n := range []int{1, 16, len(sealed) - 16} {
 				if n > 0 && n <= len(sealed) {
@@ -235,13 +248,13 @@ func engineC05(c *vctx) error {
 			}
 			// other nonces and unrelated ciphertexts
 			n2 := rng.bytes(16)
-			add(c05Mut{"(MNonce " + coqHex(n2) + ")", k, n2, sealed, "nonce-swap"})
-			add(c05Mut{"(MNonce " + coqHex(make([]byte, 16)) + ")", k, make([]byte, 16), sealed, "nonce-zero"})
+			add(c05Mut{"(MNonce " + c05Hex(n2) + ")", k, n2, sealed, "nonce-swap"})
+			add(c05Mut{"(MNonce " + c05Hex(make([]byte, 16)) + ")", k, make([]byte, 16), sealed, "nonce-zero"})
 			raw := rng.bytes(len(sealed))
-			add(c05Mut{"(MRaw " + coqHex(raw) + ")", k, nonce, raw, "raw"})
+			add(c05Mut{"(MRaw " + c05Hex(raw) + ")", k, nonce, raw, "raw"})
 			// a second, genuine message under the same key and nonce is of course accepted
 			other := c05Forge(k, nonce, rng.bytes(rng.intn(40)))
-			add(c05Mut{"(MRaw " + coqHex(other) + ")", k, nonce, other, "raw-genuine"})
+			add(c05Mut{"(MRaw " + c05Hex(other) + ")", k, nonce, other, "raw-genuine"})
 			for _, m := range extra {
 				if m.nonce == nil {
 					m.nonce = nonce
@@ -252,7 +265,7 @@ func engineC05(c *vctx) error {
 				add(m)
 			}
 		}
-		term := fmt.Sprintf("CGroup %s %s %s %s %s", c05Key(k), coqHex(nonce), coqHex(pt), c05SealTerm(sealed, panicked), coqList(opens))
+		term := fmt.Sprintf("CGroup %s %s %s %s %s", c05Key(k), c05Hex(nonce), c05Hex(pt), c05SealTerm(sealed, panicked), coqList(opens))
 		c.Hist(fmt.Sprintf("ptlen=%s", c05LenClass(len(pt))))
 		c.Case(kind, !panicked && len(opens) > 10, len(pt)+len(opens), term,
 			fmt.Sprintf("key=%x/%x/%x nonce=%x len(pt)=%d sealed_panic=%v opens=%d accepted=%d", k.EncryptionKey[:4], k.MACKey.K[:4], k.MACKey.R[:4], nonce, len(pt), panicked, len(opens), naccept))
@@ -292,8 +305,8 @@ func engineC05(c *vctx) error {
 		group(kind, c05RandKey(rng), c05Nonce(rng, rng.intn(16)), rng.bytes(l), rng, flips, nil)
 	}
 	if c.thorough() {
-		// exhaustive flips of a 4 KiB message
-		group("seal-open-exhaustive", c05RandKey(rng), c05Nonce(rng, 0), rng.bytes(4096), rng, -1, nil)
+		// exhaustive flips of a 512-byte message (33 blocks)
+		group("seal-open-exhaustive", c05RandKey(rng), c05Nonce(rng, 0), rng.bytes(512), rng, -1, nil)
 	}
 	// guards seen through a group: invalid keys and zero nonce must make Seal panic
 	for i := 0; i < 4; i++ {
@@ -337,7 +350,7 @@ func engineC05(c *vctx) error {
 	sealCase := func(kind string, k *crypto.Key, nonce, dst, pt, ad []byte) {
 		out, p := c05Seal(k, nonce, dst, pt, ad)
 		c.Hist("seal=" + map[bool]string{true: "panic", false: "ok"}[p])
-		c.Case(kind, true, len(pt)+len(dst), fmt.Sprintf("CSeal %s %s %s %s %s %s", c05Key(k), coqHex(nonce), coqHex(dst), coqHex(pt), coqHex(ad), c05SealTerm(out, p)),
+		c.Case(kind, true, len(pt)+len(dst), fmt.Sprintf("CSeal %s %s %s %s %s %s", c05Key(k), c05Hex(nonce), c05Hex(dst), c05Hex(pt), c05Hex(ad), c05SealTerm(out, p)),
 			fmt.Sprintf("nonce=%x len(dst)=%d len(pt)=%d len(ad)=%d -> panic=%v len(out)=%d", nonce, len(dst), len(pt), len(ad), p, len(out)))
 	}
 	for r := 0; r < c.n(20, 400); r++ {
@@ -376,7 +389,7 @@ func engineC05(c *vctx) error {
 	openCase := func(kind string, k *crypto.Key, nonce, dst, ct []byte) {
 		obs, _ := c05Open(k, nonce, dst, ct)
 		c.Hist("openraw=" + strings.SplitN(strings.Trim(obs, "("), " ", 2)[0])
-		c.Case(kind, true, len(ct)+len(dst), fmt.Sprintf("COpen %s %s %s %s %s", c05Key(k), coqHex(nonce), coqHex(dst), coqHex(ct), obs),
+		c.Case(kind, true, len(ct)+len(dst), fmt.Sprintf("COpen %s %s %s %s %s", c05Key(k), c05Hex(nonce), c05Hex(dst), c05Hex(ct), obs),
 			fmt.Sprintf("nonce=%x len(dst)=%d len(ct)=%d -> %.40s", nonce, len(dst), len(ct), obs))
 	}
 	for r := 0; r < c.n(40, 800); r++ {
@@ -474,7 +487,7 @@ func engineC05(c *vctx) error {
 		if acc && k != nil {
 			d, e2 := scrypt.Key([]byte(pw), salt, p.N, p.R, p.P, 64)
 			if e2 == nil {
-				c.Case("kdf-key", true, 64, fmt.Sprintf("CKdfKey %s %s", coqHex(d), c05Key(k)), fmt.Sprintf("N=%d r=%d p=%d derived=%x..", p.N, p.R, p.P, d[:8]))
+				c.Case("kdf-key", true, 64, fmt.Sprintf("CKdfKey %s %s", c05Hex(d), c05Key(k)), fmt.Sprintf("N=%d r=%d p=%d derived=%x..", p.N, p.R, p.P, d[:8]))
 			}
 		}
 	}
